@@ -132,9 +132,12 @@ theorem walkCfi_canon_fp (x : CfiIn) (o : CfiOut) (init : String) (bytes sp ret 
     List.foldl_nil, evalCfi, hsub2, CfiIn.deref_eq, hfp, CfiOut.setReg, fpName_canon, if_neg hnv, Ctx.set,
     if_neg (fpName_ne_ip _), if_neg (fpName_ne_sp _)]
 
-/-- `.cfa: sp 0 + .ra: lr` (the leaf rule of a first frame) -/
+theorem spName_of_leafOk {a : Arch} (h : a.leafOk = true) : a.spName = "sp" := by
+  cases a <;> simp [Arch.leafOk] at h <;> rfl
+
+/-- `.cfa: sp 0 + .ra: lr` (the leaf rule of a first frame; ARM, ARM64, MIPS) -/
 theorem walkCfi_leaf (x : CfiIn) (o : CfiOut) (init : String) (sp lr : Nat)
-    (htok : tokenize init = leafToks x.arch)
+    (hleaf : x.arch.leafOk = true) (htok : tokenize init = leafToks x.arch)
     (hsp : x.reg x.arch.spName = some sp) (hmax : sp ≤ x.arch.regMax)
     (hlr : x.reg (if x.arch.isMips then "ra" else "lr") = some lr) (hlmax : lr ≤ x.arch.regMax) :
     walkCfi x o init [] =
@@ -143,13 +146,13 @@ theorem walkCfi_leaf (x : CfiIn) (o : CfiOut) (init : String) (sp lr : Nat)
   have hW := regMax_lt_W64 x.arch
   have hcfa : (sp + 0) % W64 = sp := by unfold W64; omega
   have hnot : ¬ (sp > x.arch.regMax ∨ lr > x.arch.regMax) := by omega
+  rw [spName_of_leafOk hleaf] at hsp
   simp only [walkCfi, List.foldl_cons, List.foldl_nil, Option.bind_some, htok, leafToks,
     parseRules, ruleSet, List.isEmpty_cons, List.reverse_cons,
     List.reverse_nil, List.nil_append, List.cons_append, reduceCtorEq, List.lookup_cons,
     beq_self_eq_true, CfiReg.ra_beq_cfa, Bool.false_eq_true, if_false]
-  simp only [evalCfi_spTok, hsp]
   cases hm : x.arch.isMips <;> simp only [hm, if_true, if_false, Bool.false_eq_true] at hlr ⊢ <;>
-    simp only [evalCfi, hcfa, hlr, if_neg hnot] <;> simp [otherRules]
+    simp only [evalCfi, hsp, hcfa, hlr, if_neg hnot] <;> simp [otherRules]
 
 /-! ### `get_caller_by_cfi`'s lookups are the lookups of `cfiRecordAt` -/
 
